@@ -157,27 +157,33 @@ where
 
     fn create(&self, data: &Self::Item) -> Result<bool> {
         debug!("mem::{}.create({:?})", self.name, data);
-        self.db
-            .write()
-            .unwrap()
-            .insert(data.id().to_string(), data.doc()?);
+        let mut db = self.db.write().unwrap();
+        if db.contains_key(data.id()) {
+            return Err(ActError::Store(format!(
+                "mem::{}: record '{}' already exists",
+                self.name,
+                data.id()
+            )));
+        }
+        db.insert(data.id().to_string(), data.doc()?);
         Ok(true)
     }
 
     fn update(&self, data: &Self::Item) -> Result<bool> {
         debug!("mem::{}.update({:?})", self.name, data);
-        self.db
-            .write()
-            .unwrap()
-            .entry(data.id().to_string())
-            .and_modify(|iter| *iter = data.doc().unwrap());
-        Ok(true)
+        let doc = data.doc()?;
+        match self.db.write().unwrap().get_mut(data.id()) {
+            Some(iter) => {
+                *iter = doc;
+                Ok(true)
+            }
+            None => Ok(false),
+        }
     }
 
     fn delete(&self, id: &str) -> crate::Result<bool> {
         debug!("mem::{}.delete({:?})", self.name, id);
-        self.db.write().unwrap().remove(id);
-        Ok(true)
+        Ok(self.db.write().unwrap().remove(id).is_some())
     }
 }
 
